@@ -510,11 +510,89 @@ func c15Driver(res *vh.Result, ci int, rng *vh.Rng, count int) {
 	}
 }
 
+// c15RealTicker: bounded-progress check with real tickers. A 1 s and a 2 s period are registered; within ten
+// periods each must have been queried at least twice with exactly its registered set; after removal (and a
+// barrier) no further query may name the removed URR.
+func c15RealTicker(res *vh.Result, ci int, rng *vh.Rng) {
+	wg := &sync.WaitGroup{}
+	srv, err := perio.OpenServer(wg)
+	if err != nil {
+		res.Inconc(err.Error())
+		return
+	}
+	mon := &c15Mon{issued: map[uint64]pair{}, sync: make(chan struct{}, 16)}
+	srv.Handle(mon, mon.query)
+	srv.AddPeriodReportTimer(vh.SentSEID, vh.SentURR, vh.SentPeriod)
+	viol := func(sig, desc string) {
+		res.Violate(ci, "C15:"+sig, desc, map[string]interface{}{"level": "real-ticker"})
+	}
+	a, b := pair{uint64(1 + rng.Intn(5)), uint32(1 + rng.Intn(5))}, pair{uint64(10 + rng.Intn(5)), uint32(1 + rng.Intn(5))}
+	srv.AddPeriodReportTimer(a.seid, a.urr, time.Second)
+	srv.AddPeriodReportTimer(b.seid, b.urr, 2*time.Second)
+	count := func() (na, nb, bad int) {
+		mon.mu.Lock()
+		defer mon.mu.Unlock()
+		for _, q := range mon.queries {
+			switch {
+			case len(q) == 1 && len(q[a.seid]) == 1 && q[a.seid][0] == a.urr:
+				na++
+			case len(q) == 1 && len(q[b.seid]) == 1 && q[b.seid][0] == b.urr:
+				nb++
+			default:
+				bad++
+			}
+		}
+		return
+	}
+	deadline := time.Now().Add(20 * time.Second)
+	for {
+		na, nb, _ := count()
+		if (na >= 2 && nb >= 2) || time.Now().After(deadline) {
+			break
+		}
+		time.Sleep(50 * time.Millisecond)
+	}
+	na, nb, bad := count()
+	res.Count("real_ticks_observed", int64(na+nb))
+	if bad > 0 {
+		viol("real-tick-query-set", fmt.Sprintf("%d queries of a real tick named something else than the URR registered with that period", bad))
+	}
+	if na < 2 || nb < 2 {
+		viol("ticker-does-not-fire", fmt.Sprintf("within 20 s the 1 s period was queried %d times and the 2 s period %d times (each at least twice expected)", na, nb))
+	}
+	// removal: after the server has consumed the removal nothing may name the URR any more
+	srv.DelPeriodReportTimer(a.seid, a.urr)
+	srv.VerifInjectTick(vh.SentPeriod)
+	select {
+	case <-mon.sync:
+	case <-time.After(20 * time.Second):
+		res.Inconc("real-ticker barrier timed out")
+	}
+	mon.mu.Lock()
+	mon.queries = nil
+	mon.mu.Unlock()
+	time.Sleep(2500 * time.Millisecond)
+	na2, _, _ := count()
+	if na2 > 0 {
+		viol("removed-urr-still-ticking", fmt.Sprintf("the URR of the 1 s period was queried %d times after its removal", na2))
+	}
+	srv.Close()
+	done := make(chan struct{})
+	go func() { wg.Wait(); close(done) }()
+	select {
+	case <-done:
+	case <-time.After(20 * time.Second):
+		viol("close-hangs", "perio server with real tickers did not terminate within 20 s of Close")
+	}
+	res.Eval(vh.Sig("real", a, b))
+}
+
 func runC15(res *vh.Result) {
 	res.Rule = "component level: seeded add/remove/tick histories against the real perio.Server (ticks injected through a hook; sentinel-period barrier), " +
 		"every tick's query set, report delivery and the ticker-goroutine census compared with a registered-set model; driver level: registration counts " +
 		"1,55,56,57,112,113,1000 (+random) through Create/Remove URR on the real driver, union/disjointness/size of the GET_MULTI_REPORTS batches at the " +
-		"simulated kernel; every case is non-trivial (contains at least one registration); distinct = distinct operation sequences / configurations"
+		"simulated kernel; plus a few cases with real 1 s / 2 s tickers (bounded progress: each period queried at least twice within 20 s with exactly its set; " +
+		"nothing after removal); every case is non-trivial (contains at least one registration); distinct = distinct operation sequences / configurations"
 	res.Assumptions = []string{
 		"periods are hours, so no real ticker fires during a case; ticks are injected as the event a ticker posts",
 		"the barrier is a sentinel registration whose query/report proves all earlier events were consumed",
@@ -522,7 +600,12 @@ func runC15(res *vh.Result) {
 	ncomp := vh.Tiered(1500, 30000)
 	counts := []int{1, 55, 56, 57, 112, 113, 1000, 2, 111, 168, 169}
 	ndrv := vh.Tiered(len(counts)+60, len(counts)+2000)
-	res.Cases(ncomp+ndrv, func(i int, rng *vh.Rng) {
+	nreal := vh.Tiered(8, 64)
+	res.Cases(ncomp+ndrv+nreal, func(i int, rng *vh.Rng) {
+		if i >= ncomp+ndrv {
+			c15RealTicker(res, i, rng)
+			return
+		}
 		if i < ncomp {
 			c15Component(res, i, rng)
 			return
